@@ -22,7 +22,7 @@ import (
 func init() {
 	Register("C14", &CheckInfo{
 		Fn: checkC14, Level: "model_checking",
-		Rule: "bridge monitor on every accepted ClaimDeposits / WithdrawTokens: a claim is accepted only for an unflagged aggregate of that deposit's query, at least 12h old, whose power reached floor(2/3) of the validator set in force before its timestamp, at most once per id over the whole history (independent claimed-set), minting exactly amount/1e12 (independent ABI decode) with tip/1e12 to the claimer and the rest to the decoded recipient; a withdrawal burns exactly the amount from the sender, takes id previous+1 and publishes one aggregate under keccak(abi('TRBBridge',abi(false,id))) whose value decodes to (recipient,sender,amount); stored withdrawal aggregates never change; evaluated on (a) the product value encodings {well-formed, tip 0, tip=amount, tip>amount, amount not multiple of 1e12, amount<1e12, amount 2^63*1e12, 2^64*1e12, (2^64+5)*1e12, truncated ABI, bad bech32, 0x-prefixed} x power {threshold-1, threshold, threshold+1} x age {12h-1ms, 12h, 12h+1ms} x {unflagged, flagged} x {valset unchanged, valset changed after the report} with claims {single, repeated, batched [id,id], wrong index, unknown id}, (b) an exhaustive DFS depth 4 (quick) / 5 (thorough) from a real end-to-end deposit (2000-block window, >2/3 reporters) over claims, disputes flagging the aggregate, withdrawals with recipients of 0/19/20/40 bytes and amounts 1/1e6/balance+1, delegations and block gaps, (c) all <=k-deviation histories around the bridge skeleton",
+		Rule: "bridge monitor on every accepted ClaimDeposits / WithdrawTokens: a claim is accepted only for an unflagged aggregate of that deposit's query, at least 12h old, whose power reached floor(2/3) of the validator set in force before its timestamp, at most once per id over the whole history (independent claimed-set), minting exactly amount/1e12 (independent ABI decode) with tip/1e12 to the claimer and the rest to the decoded recipient; a withdrawal burns exactly the amount from the sender, takes id previous+1 and publishes one aggregate under keccak(abi('TRBBridge',abi(false,id))) whose value decodes to (recipient,sender,amount); stored withdrawal aggregates never change; evaluated on (a) the product value encodings {well-formed, tip 0, tip=amount, tip>amount, amount not multiple of 1e12, amount<1e12, amount 2^63*1e12, 2^64*1e12, (2^64+5)*1e12, truncated ABI, bad bech32, 0x-prefixed} x power {threshold-1, threshold, threshold+1} x age {12h-1ms, 12h, 12h+1ms} x {unflagged, flagged} x {valset unchanged, validator power raised / lowered by > 5% after the report} with claims {single, repeated, batched [id,id], wrong index, unknown id}, (b) an exhaustive DFS depth 4 (quick) / 5 (thorough) from a real end-to-end deposit (2000-block window, >2/3 reporters) over claims, disputes flagging the aggregate, withdrawals with recipients of 0/19/20/40 bytes and amounts 1/1e6/balance+1, delegations and block gaps, (c) all <=k-deviation histories around the bridge skeleton",
 		QuickBudget: 7 * time.Minute, ThoroughBudget: 30 * time.Minute,
 	})
 }
@@ -317,7 +317,7 @@ func checkC14(rc *RunCtx) {
 		for vi, v := range variants {
 			for pi, dp := range []int64{-1, 0, 1} {
 				for _, flagged := range []bool{false, true} {
-					for _, changeValset := range []bool{false, true} {
+					for _, changeValset := range []int{0, 1, 2} { // 0 unchanged, 1 power raised, 2 power lowered after the report
 						for ai, age := range ages {
 							if rc.Replay == nil && !rc.Mine() {
 								continue
@@ -335,7 +335,16 @@ func checkC14(rc *RunCtx) {
 								}
 								return out
 							}
-							if changeValset {
+							if changeValset == 2 {
+								// lower the validator power by > 5% (two admission periods): the threshold at claim time is lower than at report time
+								step(ev1("Undelegate(V1,self,500)", "undelegate", func(w *World) sdkMsg { return MsgUndelegate(w.Vals[0].Acc, w.Vals[0], 500*TRB) }))
+								step(BlockEv(time.Second))
+								step(BlockEv(12 * time.Hour))
+								step(BlockEv(time.Second))
+								step(ev1("Undelegate(V2,self,300)", "undelegate", func(w *World) sdkMsg { return MsgUndelegate(w.Vals[1].Acc, w.Vals[1], 300*TRB) }))
+								step(BlockEv(time.Second))
+								step(BlockEv(time.Second))
+							} else if changeValset == 1 {
 								// raise the validator power by > 5% so that a new checkpoint with a higher threshold exists at claim time
 								step(ev1("Delegate(Payer,V1,250)", "delegate", func(w *World) sdkMsg { return MsgDelegate(c.Payer.Acc, w.Vals[0], 250*TRB) }))
 								step(BlockEv(time.Second))
@@ -354,7 +363,7 @@ func checkC14(rc *RunCtx) {
 							step(ev1("Claim(single-later)", "claim", func(w *World) sdkMsg { return MsgClaimDeposits(c.Tipper.Acc, []uint64{id}, []uint64{0}) }))
 							rc.Count("executions", 1)
 							rc.Count("states", 1)
-							if vi == 0 && pi == 1 && ai == 1 && !flagged && !changeValset {
+							if vi == 0 && pi == 1 && ai == 1 && !flagged && changeValset == 0 {
 								rc.Sample(map[string]interface{}{"scenario": "claim-product", "trace": cur.Trace})
 							}
 							_ = pi
